@@ -185,12 +185,12 @@ Example patterns_accepted :
   let A := SLeaf (LSq 0 2 [0%Q; 0%Q]) in           (* nonlinear *)
   let B := SLeaf (LMat 1 2 [[1%Q; 2%Q]; [0%Q; 1%Q]]) in (* linear *)
   let two := 2%Q in let three := 3%Q in
-  wt (SMul (SMulC A two) B) = true                                       (* (A*a)*B *)
-  /\ build variant_live (SMul (SMulC A two) B)
+  wt (SMul (SMulC A two true) B) = true                                       (* (A*a)*B *)
+  /\ build variant_live (SMul (SMulC A two true) B)
      = Ok (OComp false (ORScal false (OLeaf (LSq 0 2 [0%Q; 0%Q])) two) (OLeaf (LMat 1 2 [[1%Q; 2%Q]; [0%Q; 1%Q]])))
-  /\ build variant_live (SMulC (SMulC A two) three)                   (* (A*a)*b merges *)
+  /\ build variant_live (SMulC (SMulC A two true) three true)                   (* (A*a)*b merges *)
      = Ok (ORScal false (OLeaf (LSq 0 2 [0%Q; 0%Q])) 6%Q)
-  /\ build variant_live (SMulC B two)                                 (* linear shortcut *)
+  /\ build variant_live (SMulC B two true)                                 (* linear shortcut *)
      = Ok (OLScal false (OLeaf (LMat 1 2 [[1%Q; 2%Q]; [0%Q; 1%Q]])) two)
   /\ build variant_live (SCMul three (SCMul two A))                   (* b*(a*A) merges *)
      = Ok (OLScal false (OLeaf (LSq 0 2 [0%Q; 0%Q])) 6%Q).
@@ -300,8 +300,9 @@ Theorem build_follows_source_dispatch : forall (T : Type) (N : Num T) (vt : vari
   ring_theory nzero none_ nadd nmul nsub nopp (@eq T) ->
   (forall u c : T, ndiv u c = nmul (ndiv none_ c) u) ->
   (forall a b : T, neqb a b = true -> a = b) ->
+  v_real_shortcut vt = real_shortcut_of_table ->
   forall s : sexpr T, sleaves_ok s -> build vt s = build_tab vt s.
-Proof. exact @DispatchProofs.build_eq_tab. Qed.
+Proof. exact (fun T N vt Rth Hdiv Heqb Hrs => @DispatchProofs.build_eq_tab T N vt Hrs Rth Hdiv Heqb). Qed.
 Print Assumptions build_follows_source_dispatch.
 
 (* `@` is `*`: the regenerated __matmul__ / __rmatmul__ trees just delegate *)
